@@ -95,6 +95,10 @@ def instances(tier, seed):
         add(kind='signal', order=2, method=method, N=2, grid=fam.G_UNI, T=('num', Fr(5, 2)), refine=2, der=True, param=True)
         add(kind='signal', order=3, method=method, N=3, grid=fam.G_GEO_LOC, T=('free', Fr(3, 2)), refine=None, der=True, param=True)
         add(kind='signal', order=1, method=method, N=2, M=2, grid=fam.G_UNI, T=('num', Fr(2)), refine=3, der=True, param=True)
+    # DirectCollocation with LEGENDRE points: the signal inside the dynamics is taken at the collocation time of that scheme (the midpoint)
+    add(kind='signal-dynamics', what='parameter', order=2, N=3, grid=fam.G_UNI, T=('num', Fr(2)), method='DC', scheme='legendre')
+    add(kind='signal-dynamics', what='variable', order=1, N=2, grid=fam.G_GEO_LOC, T=('num', Fr(2)), method='DC', scheme='legendre')
+    add(kind='signal-dynamics', what='both', order=2, N=2, grid=fam.G_UNI, T=('num', Fr(2)), method='DC', scheme='legendre')
     return items
 
 
@@ -571,8 +575,9 @@ def run_signal_dynamics(item):
     from ..extract import Ocp, MultipleShooting, DirectCollocation, FreeTime, make_grid
     order, N, what, Tk = item['order'], item['N'], item['what'], item['T']
     dc = item.get('method') == 'DC'       # DirectCollocation, one Radau point per interval: the signal is taken at the COLLOCATION time
+    leg = dc and item.get('scheme') == 'legendre'
     ctx = Ctx()
-    key = 'signal-dynamics|%s|order=%d%s' % (what, order, '|DC' if dc else '')
+    key = 'signal-dynamics|%s|order=%d%s' % (what, order, ('|DC-legendre' if leg else '|DC') if dc else '')
     try:
       with quiet():
           ocp = Ocp(t0=0.5, T=FreeTime(float(Tk[1])) if Tk[0] == 'free' else float(Tk[1]))
@@ -605,7 +610,7 @@ def run_signal_dynamics(item):
           ocp.subject_to(ocp.at_t0(x) == 0)
           ocp.add_objective(ocp.integral(u * u) + w * w + ocp.at_tf(x) + ocp.T)
           if dc:
-              ocp.method(DirectCollocation(N=N, M=1, degree=1, scheme='radau', grid=make_grid(item['grid'])))
+              ocp.method(DirectCollocation(N=N, M=1, degree=1, scheme=item.get('scheme', 'radau'), grid=make_grid(item['grid'])))
           else:
               ocp.method(MultipleShooting(N=N, M=1, intg='expl_euler', grid=make_grid(item['grid'])))
           ocp.solver('ipopt')
@@ -618,6 +623,9 @@ def run_signal_dynamics(item):
           outs = [ts, xs, us, ss, pcs, ocp.value(a), ocp.value(w), opti_.g]
           if dc:
               outs.append(ocp.sample(x, grid='integrator_roots')[1])      # the helper state at the collocation point of every interval
+              if leg:
+                  # one Legendre point per interval (the midpoint): the signal there, read through the grid of collocation times
+                  outs.append(ocp.sample(sig + (3 * sig2 if sig2 is not None else 0), grid='integrator_roots')[1])
           prog, zin, out = _trace(ocp, outs, ctx)
           # which rows are equalities with zero bounds (bounds may be infinite: evaluated numerically, not translated)
           lbv = np.array(opti_.debug.value(opti_.lbg, opti_.initial())).flatten()
@@ -634,9 +642,11 @@ def run_signal_dynamics(item):
     for k in range(N):
         ks_ = k + 1 if dc else k          # where the signal is evaluated: collocation time (= end of the interval) / start of the interval
         xe_, xef_ = (out[8][k], fo[8][k]) if dc else (xz[k + 1], fo[1][k + 1])       # end of the step: helper state (collocation) / next node (shooting)
-        want = xe_ - xz[k] - (tz[k + 1] - tz[k]) * (az * pz[k] * uz[k] + wz + sz[ks_])
-        wantf = xef_ - fo[1][k] - (fo[0][k + 1] - fo[0][k]) * (fo[5][0] * fo[4][k] * fo[2][k] + fo[6][0] + fo[3][ks_])
-        hf_ = fo[0][k + 1] - fo[0][k]
+        sk_, skf_ = (out[9][k], fo[9][k]) if leg else (sz[ks_], fo[3][ks_])
+        tau_z, tau_f = (z3.Q(1, 2), 0.5) if leg else (z3.RealVal(1), 1.0)       # collocation time of the single point: midpoint (Legendre) / end (Radau)
+        want = xe_ - xz[k] - tau_z * (tz[k + 1] - tz[k]) * (az * pz[k] * uz[k] + wz + sk_)
+        wantf = xef_ - fo[1][k] - tau_f * (fo[0][k + 1] - fo[0][k]) * (fo[5][0] * fo[4][k] * fo[2][k] + fo[6][0] + skf_)
+        hf_ = tau_f * (fo[0][k + 1] - fo[0][k])
         cands = [i for i in range(len(gz)) if eqrow[i] and (abs(abs(fo[7][i]) - abs(wantf)) <= 1e-9 * max(1.0, abs(wantf)) or (dc and abs(abs(fo[7][i] * hf_) - abs(wantf)) <= 1e-9 * max(1.0, abs(wantf))))]
         ok = False
         for i in cands:
@@ -646,7 +656,7 @@ def run_signal_dynamics(item):
                     # the collocation defect is written per unit time ((x_r - x_k)/h - f); with the helper state eliminated through the continuity row
                     # x_{k+1} == x_r it equals the residual above divided by h > 0: compare h * row (helper state substituted) with the residual
                     ctx.s.add((tz[k + 1] - tz[k]) > 0)
-                    ctx.s.add(z3.simplify(gz[i] * (tz[k + 1] - tz[k]) - sgn * want) != 0)
+                    ctx.s.add(z3.simplify(gz[i] * tau_z * (tz[k + 1] - tz[k]) - sgn * want) != 0)
                 else:
                     ctx.s.add(z3.simplify(gz[i] - sgn * want) != 0)
                 r = str(ctx.s.check())
